@@ -17,7 +17,8 @@ Schedule
   ShiftSchedule([Shift(0.0, 1.001, capacity=2), Shift(1.001, 5.0, capacity=1)])
   one job at t=0.5 (initialises the self-perpetuating shift-change chain), one job at t=2.0,
   a bystander entity event at t=3.0, end_time = 10 s.
-  expected: ~10 deliveries, both jobs processed, bystander fires at 3.0, run completes.
+  expected: ~17 deliveries, both jobs processed, bystander fires at 3.0 and sees capacity 1
+            (second shift in force), run completes.
   observed: the run is paused by the EventCountBreakpoint watchdog after CAP deliveries with the
             clock still at 1.000999999 s; job 2 and the bystander are never reached.
   Control: the same schedule with the boundary at 1.0 s (exactly representable) completes normally.
@@ -49,9 +50,12 @@ class Bystander(Entity):
     def __init__(self):
         super().__init__("bystander")
         self.fired_at = []
+        self.server = None
+        self.capacity_seen = None
 
     def handle_event(self, event):
         self.fired_at.append(self.now.to_seconds())
+        self.capacity_seen = self.server.current_capacity
         return None
 
 
@@ -61,6 +65,7 @@ def run(boundary):
     )
     server = ShiftedServer("line", sched, service_time=0.1)
     by = Bystander()
+    by.server = server
     sim = Simulation(end_time=Instant.from_seconds(10), entities=[server, by])
     sim.schedule(Event(time=Instant.from_seconds(0.5), event_type="job", target=server))
     sim.schedule(Event(time=Instant.from_seconds(2.0), event_type="job", target=server))
@@ -69,12 +74,13 @@ def run(boundary):
     sim.run()
     st = sim.control.get_state()
     spinning = st.is_paused and st.events_processed >= CAP
-    ok = (not spinning) and server.processed == 2 and by.fired_at == [3.0]
+    # at t=3.0 the second shift (capacity 1) must be in force
+    ok = (not spinning) and server.processed == 2 and by.fired_at == [3.0] and by.capacity_seen == 1
     print(
         f"boundary={boundary!r:6} stamped_ns={Instant.from_seconds(boundary).nanoseconds} "
         f"events={st.events_processed} clock={st.current_time.nanoseconds}ns "
         f"processed={server.processed}/2 capacity_now={server.current_capacity} "
-        f"bystander_fired={by.fired_at} -> "
+        f"bystander_fired={by.fired_at} capacity_at_3s={by.capacity_seen} (want 1) -> "
         f"{'ok' if ok else 'DEFECT: ' + ('spins at frozen clock' if spinning else 'wrong outcome')}"
     )
     return ok
